@@ -172,11 +172,11 @@ def check_conversion(ctx, fn: ast.AST, where: str) -> None:
                    "weights sum to one they are kept, the status monitor - reading report[stage]['stage-weight'] - finds no key, takes its "
                    "fallback and replaces ALL weights by 1/n ({1: {'stage-weight': 1.0}} is reported as [0.5, 0.5])" % (where, short(arg, 50)),
                    construct="%s: a missing weight is written into the report" % where)
-        for need in ("ValueError", "TypeError"):
-            ok = everything or need in caught
+        for need in ("ValueError", "TypeError", "OverflowError"):
+            ok = everything or need in caught or (need == "OverflowError" and "ArithmeticError" in caught)
             ctx.ob(RID, c, ok, "%s: %s of the conversion is handled (the weight counts as missing)" % (where, need) if ok else
                    "%s: float(<given weight>) raises %s for %s and no handler around it catches that: the load aborts instead of treating "
-                   "the weight as missing" % (where, need, "a weight that is None or a list" if need == "TypeError" else "a string that is not a number"),
+                   "the weight as missing" % (where, need, "a weight that is None or a list" if need == "TypeError" else "an integer too large for a float (10**400)" if need == "OverflowError" else "a string that is not a number"),
                    construct="%s: float(weight) <- except %s" % (where, need))
 
 
@@ -368,13 +368,33 @@ def run(ctx) -> None:
         if not isinstance(lp, ast.For) or not isinstance(lp.target, ast.Name):
             continue
         body = lp.body
-        if len(body) == 1 and isinstance(body[0], ast.If) and not body[0].orelse and isinstance(body[0].test, ast.Call) and call_name(body[0].test) == "isinstance":
-            body = body[0].body
+        if len(body) == 1 and isinstance(body[0], ast.If) and isinstance(body[0].test, ast.Call) and call_name(body[0].test) == "isinstance":
+            # the other arm (an entry that is not a dictionary) may only bind a fresh dictionary as well
+            other_ok = all(isinstance(st_, ast.Assign) and fresh_dict(st_.value) for st_ in body[0].orelse)
+            body = body[0].body if other_ok else []
         for st in body:
             if isinstance(st, ast.Assign) and len(st.targets) == 1 and isinstance(st.targets[0], ast.Subscript) and isinstance(st.targets[0].slice, ast.Name) \
                     and st.targets[0].slice.id == lp.target.id and fresh_dict(st.value) and canon(st.targets[0].value) in source.src(lp.iter).replace(
                         source.src(st.targets[0].value), canon(st.targets[0].value)):
                 unshare.append((lp, canon(st.targets[0].value)))
+    # an entry that is not a dictionary (an empty '0:' in the YAML is None) defines no weight: the un-sharing loop replaces it by a
+    # dictionary instead of leaving it for the membership test that follows ('stage-weight' not in None raises TypeError)
+    report_conts = set()
+    for sn_ in replaced:
+        tg_ = next((t for t in sn_.ast.targets if isinstance(t, ast.Subscript) and isinstance(t.slice, ast.Constant) and t.slice.value == "stage-weight"), None)
+        if tg_ is not None and isinstance(tg_.value, ast.Subscript):
+            report_conts.add(canon(tg_.value.value))
+    for (lp_, _c) in unshare:
+        if _c not in report_conts:
+            continue
+        inner = lp_.body[0] if len(lp_.body) == 1 and isinstance(lp_.body[0], ast.If) else None
+        if inner is not None and isinstance(inner.test, ast.Call) and call_name(inner.test) == "isinstance":
+            ok_e = bool(inner.orelse) and all(isinstance(st_, ast.Assign) and fresh_dict(st_.value) for st_ in inner.orelse)
+            ctx.ob("C20.R9-malformed-weight-is-missing", inner, ok_e,
+                   "a status entry that is not a dictionary is replaced by an empty one (it defines no weight)" if ok_e else
+                   "a status entry that is not a dictionary ('0:' parses to None, or a bare number) is left in the report: the membership test "
+                   "that follows raises TypeError and the load fails instead of counting the weight as missing",
+                   construct="inject_default_values: non-dictionary status entry -> {}")
     n12 = 0
     for sn in replaced:
         tgt = next(t for t in sn.ast.targets if isinstance(t, ast.Subscript) and isinstance(t.slice, ast.Constant) and t.slice.value == "stage-weight")
@@ -620,6 +640,20 @@ def run(ctx) -> None:
            "a stage counts as in transit only through an active node" if ok else
            "get_stages_in_transit adds a stage without an active node: a finished stage is counted twice",
            construct="get_stages_in_transit: add <- node_is_active")
+    # .. and over one population: both selections test the activity of GRAPH NODES (get_stages_finished through get_nodes_in_stage).  A
+    # stage that enters the in-transit set through anything else (a DoWhile placeholder, which is never added to comp_done in a normal
+    # run) stays 'in transit' for ever while the node-based test calls it finished - its weight is counted twice
+    for c in [x for x in ast.walk(gst) if isinstance(x, ast.Call) and last_attr(x) == "node_is_active" and x.args]:
+        a0 = c.args[0]
+        loops_ = [a for a in source.ancestors(c) if isinstance(a, ast.For) and isinstance(a.target, ast.Name) and isinstance(a0, ast.Name) and a.target.id == a0.id]
+        ok = bool(loops_) and any(source.src(loops_[0].iter).endswith(sfx) for sfx in ("graph.nodes", "graph.nodes()")) or (
+            bool(loops_) and isinstance(loops_[0].iter, ast.Call) and last_attr(loops_[0].iter) == "get_nodes_in_stage")
+        ctx.ob("C20.R7-total-is-a-weighted-sum", c, ok,
+               "the activity test of the in-transit selection ranges over the nodes of the graph" if ok else
+               "get_stages_in_transit tests the activity of %s, which does not range over the nodes of the graph: get_stages_finished decides from "
+               "graph nodes only, so a stage can be in both lists (a loop's placeholder is never marked done in a normal run) and CheckStatus "
+               "adds its weight twice - the reported total exceeds one" % (short(loops_[0].iter, 40) if loops_ else short(a0, 30)),
+               construct="get_stages_in_transit: node_is_active(<graph node>)")
     # the two lists are one snapshot: complementary predicates only give disjoint sets when they are evaluated on one state
     def lock_attrs(f: ast.AST) -> Set[str]:
         return {it.context_expr.attr for w in source.walk_own(f) if isinstance(w, ast.With) for it in w.items if isinstance(it.context_expr, ast.Attribute)}
